@@ -24,18 +24,18 @@ type vpObj struct {
 }
 
 type vpScan struct {
-	objs      map[git.OID]*vpObj
-	listing   []*vpObj
-	addRoots  []git.OID
-	requests  []git.OID
-	commands  [][]string
-	nextFirst int
-	nextSecond int
+	objs             map[git.OID]*vpObj
+	listing          []*vpObj
+	addRoots         []git.OID
+	requests         []git.OID
+	commands         [][]string
+	nextFirst        int
+	nextSecond       int
 	closed1, closed2 bool
-	ordered   bool
-	dead1     bool
-	fault     int // see VPH_scan
-	faultPos  int
+	ordered          bool
+	dead1            bool
+	fault            int // see VPH_scan
+	faultPos         int
 }
 
 var errVPFault = errors.New("injected fault")
